@@ -242,7 +242,7 @@ fn nth_string(mut i: u64, len: usize) -> String {
 }
 
 pub fn run(a: &Args) -> (Acc, bool) {
-    let max_tokens = if a.tier == "thorough" { 8 } else { 6 };
+    let max_tokens = if a.tier == "thorough" { 9 } else { 7 };
     let max_tokens = if a.scale < 1.0 { 4 } else { max_tokens };
     // sweep: shard the index space of every length over the workers
     let mut total = Acc::new();
@@ -275,7 +275,7 @@ pub fn run(a: &Args) -> (Acc, bool) {
         total.merge(acc);
     }
     // random strings over arbitrary characters, and chains of join/parent/root against a reference stack
-    let nrand = a.n(400, 8000);
+    let nrand = a.n(2000, 20000);
     let acc = par_run(a, "c06-random", nrand, |a, idx, acc| {
         let mut rng = Rng::derive(a.seed, "c06-random", idx);
         with_ctx(|cx| {
